@@ -195,11 +195,12 @@ class Adapter:
         else:
             h.add_node(n, metadata=meta)
 
-    def r_add_nodes(self, h, ns, metas):
+    def r_add_nodes(self, h, ns, metas, skip_first=False):
         if metas is None:
             h.add_nodes(list(ns))
         else:
-            h.add_nodes(list(ns), metadata={n: metas[i] for i, n in enumerate(ns)})
+            h.add_nodes(list(ns), metadata={n: metas[i] for i, n in enumerate(ns)
+                                            if not (skip_first and i == 0)})
 
     def r_remove_node(self, h, n, keep):
         if keep:
@@ -305,6 +306,10 @@ def resolve(ad, aop, model, U):
             c["metas"] = None
         if c["metas"] is not None and len(c["metas"]) < len(c["ns"]):
             c["ns"] = c["ns"][: len(c["metas"])]
+        if aop.get("first_meta_missing") and c["metas"] is not None:
+            # the metadata map lacks the FIRST listed node: documented ValueError, and since the
+            # first element fails nothing may have been added
+            c["first_meta_missing"] = True
     elif k == "add_edge":
         c["e"] = _edge_from(ad, aop["edge"], model, U)
         c["w"] = aop["w"]
@@ -393,6 +398,8 @@ def apply_model(ad, m, c):
     if k == "add_node":
         return m.add_node(c["n"], dc(c["meta"]))
     if k == "add_nodes":
+        if c.get("first_meta_missing"):
+            return False
         for i, n in enumerate(c["ns"]):
             m.add_node(n, dc(c["metas"][i]) if c["metas"] is not None else None)
         return True
@@ -481,7 +488,11 @@ def apply_real(ad, h, c):
     if k == "add_node":
         ad.r_add_node(h, c["n"], dc(c["meta"]))
     elif k == "add_nodes":
-        ad.r_add_nodes(h, c["ns"], [dc(m) for m in c["metas"]] if c["metas"] is not None else None)
+        metas = [dc(m) for m in c["metas"]] if c["metas"] is not None else None
+        if c.get("first_meta_missing"):
+            ad.r_add_nodes(h, c["ns"], metas, skip_first=True)
+        else:
+            ad.r_add_nodes(h, c["ns"], metas)
     elif k == "add_edge":
         ad.r_add_edge(h, c["e"], c["w"], dc(c["meta"]))
     elif k == "add_edges":
@@ -858,7 +869,8 @@ def op_strategy(draw, weighted, kinds, t_strategy=None, clear=True):
         op.update(node=draw(node_spec()), meta=draw(S.opt_metadata()))
     elif k == "add_nodes":
         op.update(ns=draw(st.lists(idx, min_size=1, max_size=4, unique=True)),
-                  metas=draw(st.one_of(st.none(), st.lists(S.metadata(), min_size=1, max_size=4))))
+                  metas=draw(st.one_of(st.none(), st.lists(S.metadata(), min_size=1, max_size=4))),
+                  first_meta_missing=draw(st.integers(0, 7)) == 0)
     elif k == "add_edge":
         op.update(edge=draw(e_mixed), w=draw(weight_for(weighted)), meta=draw(S.opt_metadata()))
     elif k == "add_edges":
